@@ -38,7 +38,9 @@ ServerAllowed ==
 
 Flat0 == FlatAn(e.msgs)
 Mid0 == Inner(Flat0)
-Dups == {Mid0[i] : i \in {j \in DOMAIN Mid0 : \E k \in DOMAIN Mid0 : k < j /\ Mid0[k] = Mid0[j]}}
+\* (looked for only when there are any: quadratic)
+Dups == IF Cardinality(Range(Mid0)) = Len(Mid0) THEN {}
+        ELSE {Mid0[i] : i \in {j \in DOMAIN Mid0 : \E k \in DOMAIN Mid0 : k < j /\ Mid0[k] = Mid0[j]}}
 Few(S) == IF Cardinality(S) <= 12 THEN S ELSE {}
 ServerReport ==
     [case |-> e.case, line |-> l, kind |-> "server", duty |-> SDuty, obs |-> e.obs,
